@@ -178,6 +178,14 @@ def cases_pertfail(tier):
     pats = [(2, 2, 2, [[True, False], [False, False]]), (3, 2, 2, [[False, False], [False, True], [False, False]]), (2, 2, 1, [[True, True], [False, False]])]
     if tier == "thorough":
         pats += [(3, 2, 1, [[True, True], [False, True], [False, False]]), (2, 3, 2, [[True, True, False], [False, True, False]])]
+        # every failure matrix of a 2 x 2 ensemble, both thresholds
+        import itertools as _it
+
+        for bits in _it.product((False, True), repeat=4):
+            pf = [list(bits[:2]), list(bits[2:])]
+            for pms in (1, 2):
+                if (2, 2, pms, pf) not in pats:
+                    pats.append((2, 2, pms, pf))
     for R, P, pms, pf in pats:
         for merge in (False, True):
             for ms in (1, R):
